@@ -63,12 +63,20 @@ def _eq(I, v, other):
 
 
 def _cumsum(I, v, dim, dtype=None):
+    from . import ctensor as ct
+
     c = _fresh_fn("cumsum", z3.IntSort())
     t = z3.Int("t_cs")
     one = lambda b: z3.If(b, 1, 0) if v.dtype == "bool" else b
+    width = ct.int_width(dtype) if dtype is not None and not isinstance(dtype, str) else None
+    w = (lambda x: ct.wrap_int(x, width)) if width is not None else (lambda x: x)  # a narrow integer dtype wraps around
     # assumed contract of torch.cumsum along the dimension
-    v._axiom(I, z3.And(c(0) == one(v.elem(0)), z3.ForAll([t], z3.Implies(t >= 0, c(t + 1) == c(t) + one(v.elem(t + 1))))))
+    base = c(0) == w(one(v.elem(0)))
+    step = lambda tt: z3.Implies(tt >= 0, c(tt + 1) == w(c(tt) + one(v.elem(tt + 1))))
+    v._axiom(I, z3.And(base, z3.ForAll([t], step(t))))
     I.ex.ghost.setdefault("defs", {})["cumsum"] = c
+    I.ex.ghost["defs"]["cumsum_instances"] = (base, step)  # instance builders of exactly the contract assumed above
+    I.ex.ghost["defs"]["cumsum_operand"] = v.elem
     return SymVec(v.n, lambda t_: c(t_), "long", v.dim)
 
 
@@ -77,8 +85,12 @@ def _sum(I, v, dim=None, **k):
     t = z3.Int("t_sum")
     one = lambda b: z3.If(b, 1, 0) if v.dtype == "bool" else b
     # assumed contract of sum along the dimension: partial sums S(0)=0, S(t+1)=S(t)+x(t); the result is S(n)
-    v._axiom(I, z3.And(s(0) == 0, z3.ForAll([t], z3.Implies(t >= 0, s(t + 1) == s(t) + one(v.elem(t))))))
+    base = s(0) == 0
+    step = lambda tt: z3.Implies(tt >= 0, s(tt + 1) == s(tt) + one(v.elem(tt)))
+    v._axiom(I, z3.And(base, z3.ForAll([t], step(t))))
     I.ex.ghost.setdefault("defs", {})["partial_sum"] = s
+    I.ex.ghost["defs"]["partial_sum_instances"] = (base, step)
+    I.ex.ghost["defs"]["partial_sum_operand"] = v.elem
     return s(v.n)
 
 
